@@ -76,6 +76,8 @@ pub enum AddrSel {
     Original,
     Attacker(u8),
     Node(u8),
+    /// the original source IP with another port (a NAT re-mapping, or another process on that host)
+    SameIpOtherPort(u8),
 }
 
 /// Which part of the datagram a mutation hits (in the unmasked domain where it matters).
@@ -98,6 +100,9 @@ pub enum Mutation {
     Remask { to: u8 },
     /// same unmasked header and body under a different IV (header re-masked accordingly)
     ReIv { seed: u8 },
+    /// n bytes appended at the END of the auth-data (after the record of a handshake packet), with the
+    /// auth-data size field fixed up and the header re-masked
+    ExtendAuthData { n: u8 },
     /// handshake packet: replace the attached record (0 = strip it, 1 = the sender's older record,
     /// 2 = the sender's current record) leaving signature, ephemeral key and body untouched
     HandshakeRecord { variant: u8 },
@@ -207,6 +212,10 @@ pub struct WireConfig {
     pub nodes_packets: u8,
     /// local record seq of each node (1..=3)
     pub seqs: Vec<u8>,
+    /// peers (index) behind NAT: their record advertises another UDP socket than the address their
+    /// packets come from (handshakes with them end in UnverifiableEnr, the session still works)
+    #[serde(default)]
+    pub nat_peers: Vec<u8>,
     /// peers (index) whose APPLICATION answers record requests (FINDNODE [0]) with a validly signed
     /// record of another identity that carries no address (a byzantine application behind an
     /// honest transport)
@@ -371,8 +380,13 @@ impl World {
             let key = keys::key(key_idx);
             let addr = node_addr(i);
             let seq = *cfg.seqs.get(i).unwrap_or(&2) as u64 + 1;
-            let enr = node_record(&key, addr, seq);
-            let older_enr = node_record(&key, addr, seq - 1);
+            let advertised = if cfg.nat_peers.contains(&(i as u8)) {
+                SocketAddr::new(IpAddr::V4(Ipv4Addr::new(10, 99, 0, 1 + i as u8)), 4000 + i as u16)
+            } else {
+                addr
+            };
+            let enr = node_record(&key, advertised, seq);
+            let older_enr = node_record(&key, advertised, seq - 1);
             let id = enr.node_id().raw();
             let vh = spawn_handler(key_idx, &enr, addr, &cfg).await;
             nodes.push(Node { key_idx, key, enr, older_enr, id, addr, vh, held_wru: vec![], held_req: vec![], restarts: 0 });
